@@ -32,38 +32,69 @@ theorem view_length (v : Vec α) (h : v.Inv) : v.view.length = v.size := by
 theorem mkDefault_inv (L : Ledger) : (mkDefault (α := α) L).1.Inv := by
   constructor <;> simp [mkDefault]
 
-theorem resize_inv (v : Vec α) (n : Nat) (L : Ledger) (h : v.Inv) : (v.resize n L).1.Inv := by
+theorem initRange_length (zero : α) (cells : List (Cell α)) (old n : Nat) (hn : n ≤ cells.length) :
+    (initRange zero cells old n).length = cells.length := by
+  unfold initRange
+  split
+  · simp [List.length_take]; omega
+  · rfl
+
+theorem initRange_take_old (zero : α) (cells : List (Cell α)) (old n : Nat) (hn : n ≤ cells.length) :
+    (initRange zero cells old n).take old = cells.take old := by
+  unfold initRange
+  split
+  · rw [List.append_assoc, List.take_left']
+    simp [List.length_take]; omega
+  · rfl
+
+theorem initRange_take (zero : α) (cells : List (Cell α)) (old n : Nat) (ho : old < n) (hn : n ≤ cells.length) :
+    (initRange zero cells old n).take n = cells.take old ++ List.replicate (n - old) (some zero) := by
+  unfold initRange
+  simp only [ho, if_true]
+  rw [List.take_left']
+  simp [List.length_take]; omega
+
+theorem resize_inv (zero : α) (v : Vec α) (n : Nat) (L : Ledger) (h : v.Inv) : (v.resize zero n L).1.Inv := by
   obtain ⟨p, hp⟩ := Option.isSome_iff_exists.mp h.blk
+  have h1 := h.len; have h2 := h.le
   unfold resize
   simp only [hp]
   split
   · constructor
     · simp
-    · have := h.len; have := h.le
-      simp [List.length_take]; omega
+    · simp [List.length_take]; omega
     · simp
   · constructor
     · simp [hp]
-    · exact h.len
+    · simp only []; rw [initRange_length zero v.cells v.size n (by omega)]; exact h.len
     · simp; omega
 
-theorem resize_size (v : Vec α) (n : Nat) (L : Ledger) (h : v.Inv) : (v.resize n L).1.size = n := by
+theorem resize_size (zero : α) (v : Vec α) (n : Nat) (L : Ledger) (h : v.Inv) : (v.resize zero n L).1.size = n := by
   obtain ⟨p, hp⟩ := Option.isSome_iff_exists.mp h.blk
   unfold resize
   simp only [hp]
   split <;> rfl
 
-/-- a resize that does not grow keeps the leading elements -/
-theorem resize_shrink_view (v : Vec α) (n : Nat) (L : Ledger) (h : v.Inv) (hn : n ≤ v.size) :
-    (v.resize n L).1.view = v.view.take n := by
+/-- `resize` is `std::vector::resize`: truncation, or growth by value-initialised elements -/
+theorem resize_view (zero : α) (v : Vec α) (n : Nat) (L : Ledger) (h : v.Inv) :
+    (v.resize zero n L).1.view =
+      if n ≤ v.size then v.view.take n else v.view ++ List.replicate (n - v.size) (some zero) := by
   obtain ⟨p, hp⟩ := Option.isSome_iff_exists.mp h.blk
-  have := h.le
+  have h1 := h.len; have h2 := h.le
   unfold resize
   simp only [hp]
-  split
-  · omega
-  · have := h.len
-    simp only [view, List.take_take]; congr 1; omega
+  by_cases hc : v.cap < n
+  · have hn : ¬ n ≤ v.size := by omega
+    simp only [hc, if_true, hn, if_false, view]
+    rw [List.take_of_length_le]
+    simp [List.length_take]; omega
+  · simp only [hc, if_false, view]
+    by_cases hn : n ≤ v.size
+    · have : ¬ v.size < n := by omega
+      simp only [hn, if_true, initRange, this, if_false, List.take_take]
+      congr 1; omega
+    · simp only [hn, if_false]
+      exact initRange_take zero v.cells v.size n (by omega) (by omega)
 
 theorem copyFrom_inv (v o : Vec α) (L : Ledger) (h : v.Inv) (ho : o.Inv) (hs : v.size = o.size) :
     (v.copyFrom o L).1.Inv := by
@@ -107,15 +138,24 @@ theorem store_inv (v : Vec α) (i : Nat) (c : Cell α) (L : Ledger) (h : v.Inv) 
   · exact ⟨h.blk, by simp [h.len], h.le⟩
   · exact h
 
-theorem mkSized_zero (L : Ledger) : (mkSized (α := α) 0 L).1.Inv ∧ (mkSized (α := α) 0 L).1.view = [] := by
-  simp [mkSized, resize, Ledger.alloc, view]
-  constructor <;> simp
+theorem mkSized_spec (zero : α) (n : Nat) (L : Ledger) :
+    (mkSized zero n L).1.Inv ∧ (mkSized zero n L).1.view = List.replicate n (some zero) := by
+  have h0 : ({ blk := some L.alloc.1, cells := List.replicate n none, size := 0, cap := n } : Vec α).Inv :=
+    ⟨by simp, by simp, by simp⟩
+  refine ⟨resize_inv zero _ n _ h0, ?_⟩
+  unfold mkSized
+  simp only []
+  rw [resize_view zero _ n _ h0]
+  by_cases hn : n = 0
+  · subst hn; simp [view]
+  · have : ¬ n ≤ 0 := by omega
+    simp [this, view]
 
-theorem mkVariadic_spec (vs : List α) (L : Ledger) :
-    (mkVariadic vs L).1.Inv ∧ (mkVariadic vs L).1.view = vs.map some := by
+theorem mkVariadic_spec (zero : α) (vs : List α) (L : Ledger) :
+    (mkVariadic zero vs L).1.Inv ∧ (mkVariadic zero vs L).1.view = vs.map some := by
   have h0 := mkDefault_inv (α := α) L
-  have h1 := resize_inv _ vs.length (mkDefault (α := α) L).2 h0
-  have h2 := resize_size _ vs.length (mkDefault (α := α) L).2 h0
+  have h1 := resize_inv zero _ vs.length (mkDefault (α := α) L).2 h0
+  have h2 := resize_size zero _ vs.length (mkDefault (α := α) L).2 h0
   unfold mkVariadic
   simp only []
   rw [storeAll_spec]
@@ -126,50 +166,52 @@ theorem mkVariadic_spec (vs : List α) (L : Ledger) :
       simp
   · have := h1.len; have := h1.le; omega
 
-theorem mkCopy_spec (o : Vec α) (L : Ledger) (ho : o.Inv) :
-    (mkCopy o L).1.Inv ∧ (mkCopy o L).1.view = o.view := by
+theorem mkCopy_spec (zero : α) (o : Vec α) (L : Ledger) (ho : o.Inv) :
+    (mkCopy zero o L).1.Inv ∧ (mkCopy zero o L).1.view = o.view := by
   have h0 := mkDefault_inv (α := α) L
-  have h1 := resize_inv _ o.size (mkDefault (α := α) L).2 h0
-  have h2 := resize_size _ o.size (mkDefault (α := α) L).2 h0
+  have h1 := resize_inv zero _ o.size (mkDefault (α := α) L).2 h0
+  have h2 := resize_size zero _ o.size (mkDefault (α := α) L).2 h0
   exact ⟨copyFrom_inv _ o _ h1 ho h2, copyFrom_view _ o _ ho h2⟩
 
-theorem assign_spec (v o : Vec α) (L : Ledger) (h : v.Inv) (ho : o.Inv) :
-    (assign v o L).1.Inv ∧ (assign v o L).1.view = o.view := by
-  have h1 := resize_inv v o.size L h
-  have h2 := resize_size v o.size L h
+theorem assign_spec (zero : α) (v o : Vec α) (L : Ledger) (h : v.Inv) (ho : o.Inv) :
+    (assign zero v o L).1.Inv ∧ (assign zero v o L).1.view = o.view := by
+  have h1 := resize_inv zero v o.size L h
+  have h2 := resize_size zero v o.size L h
   exact ⟨copyFrom_inv _ o _ h1 ho h2, copyFrom_view _ o _ ho h2⟩
 
-/-- `x = x` changes nothing at all -/
-theorem assignSelf_eq (v : Vec α) (L : Ledger) (h : v.Inv) : assignSelf v L = (v, L) := by
+theorem resize_same (zero : α) (v : Vec α) (L : Ledger) (h : v.Inv) : v.resize zero v.size L = (v, L) := by
   obtain ⟨p, hp⟩ := Option.isSome_iff_exists.mp h.blk
   have h1 := h.len; have h2 := h.le
-  have hr : v.resize v.size L = (v, L) := by
-    cases v with
-    | mk blk cells size cap =>
-      simp only at hp h1 h2
-      subst hp
-      have : ¬ cap < size := by omega
-      simp [resize, this]
+  cases v with
+  | mk blk cells size cap =>
+    simp only at hp h1 h2
+    subst hp
+    have : ¬ cap < size := by omega
+    simp [resize, this, initRange, Ledger.flagIf]
+
+/-- `x = x` changes nothing at all -/
+theorem assignSelf_eq (zero : α) (v : Vec α) (L : Ledger) (h : v.Inv) : assignSelf zero v L = (v, L) := by
+  have h1 := h.len; have h2 := h.le
   unfold assignSelf
-  simp only [hr, copyFrom, List.take_append_drop]
+  simp only [resize_same zero v L h, copyFrom, List.take_append_drop]
   have : ¬ (v.cells.length < v.size) := by omega
   simp [Ledger.flagIf, this]
 
-theorem push_spec (v : Vec α) (a : α) (L : Ledger) (h : v.Inv) :
-    (push v a L).1.Inv ∧ (push v a L).1.view = v.view ++ [some a] := by
+theorem pushCell_spec (zero : α) (v : Vec α) (c : Cell α) (L : Ledger) (h : v.Inv) :
+    (pushCell zero v c L).1.Inv ∧ (pushCell zero v c L).1.view = v.view ++ [c] := by
   obtain ⟨p, hp⟩ := Option.isSome_iff_exists.mp h.blk
   have h1 := h.len; have h2 := h.le
-  unfold push
+  unfold pushCell
   split
   · -- full: reallocate to size+1
-    have hr := resize_inv v (v.size + 1) L h
-    have hs := resize_size v (v.size + 1) L h
+    have hr := resize_inv zero v (v.size + 1) L h
+    have hs := resize_size zero v (v.size + 1) L h
     refine ⟨store_inv _ _ _ _ hr, ?_⟩
-    have hc : (v.resize (v.size + 1) L).1.cells = v.cells.take v.size ++ [none] := by
+    have hc : (v.resize zero (v.size + 1) L).1.cells = v.cells.take v.size ++ [some zero] := by
       unfold resize; simp only [hp]
       have : v.cap < v.size + 1 := by omega
       simp [this]
-    have hlen : v.size < (v.resize (v.size + 1) L).1.cells.length := by
+    have hlen : v.size < (v.resize zero (v.size + 1) L).1.cells.length := by
       rw [hc]; simp [List.length_take]; omega
     simp only [store, hs, Nat.add_sub_cancel, hlen, if_true, view]
     rw [take_succ_set _ _ _ hlen, hc]
@@ -192,45 +234,58 @@ end Vec
 /-- exact refinement relation towards `std::vector` -/
 def RVec (v : Vec α) (l : List α) : Prop := v.Inv ∧ v.view = l.map some
 
-/-- histories that never rely on value-initialisation and never push an aliasing argument:
-    sized construction only with N = 0, `resize` only up to the current size -/
-def vecOk : Option (List α) → Op α → Prop
-  | _, .ctorN _ n => n = 0
-  | some l, .resize _ n => n ≤ l.length
-  | _, .pushAt _ _ => False
-  | _, _ => True
+/-- every operation of the alphabet is inside the refinement domain -/
+def vecOk : Option (List α) → Op α → Prop := fun _ _ => True
 
 theorem RVec.size_eq {v : Vec α} {l : List α} (h : RVec v l) : v.size = l.length := by
   have := Vec.view_length v h.1
   rw [h.2] at this; simpa using this.symm
 
-theorem vec_sim (zero : α) : Sim (vecImpl α) (stdSpec zero) RVec vecOk where
+theorem RVec.cell {v : Vec α} {l : List α} (h : RVec v l) (i : Nat) (hi : i < l.length) :
+    v.cells[i]? = some (l[i]?) := by
+  have hs := h.size_eq
+  have hv := congrArg (fun t => t[i]?) h.2
+  simp only [Vec.view, List.getElem?_take, List.getElem?_map] at hv
+  have : i < v.size := by omega
+  simp only [this, if_true] at hv
+  rw [hv]
+  simp [List.getElem?_eq_getElem hi]
+
+theorem vec_sim (zero : α) : Sim (vecImpl zero) (stdSpec zero) RVec vecOk where
   size_eq := fun x y h => h.size_eq
   mkDefault := fun s L M _ => ⟨Vec.mkDefault_inv L, by simp [vecImpl, stdSpec, Vec.mkDefault, Vec.view]⟩
-  mkSized := fun s n L M hok => by
-    simp only [vecOk] at hok; subst hok
-    exact ⟨(Vec.mkSized_zero L).1, by simp [vecImpl, stdSpec, (Vec.mkSized_zero (α := α) L).2]⟩
-  mkVariadic := fun s vs L M _ => ⟨(Vec.mkVariadic_spec vs L).1, (Vec.mkVariadic_spec vs L).2⟩
-  mkCopy := fun d s x y L M _ h => ⟨(Vec.mkCopy_spec x L h.1).1, by
-    show (Vec.mkCopy x L).1.view = _
-    rw [(Vec.mkCopy_spec x L h.1).2]; exact h.2⟩
-  assign := fun d s x y x' y' L M _ h h' => ⟨(Vec.assign_spec x x' L h.1 h'.1).1, by
-    show (Vec.assign x x' L).1.view = _
-    rw [(Vec.assign_spec x x' L h.1 h'.1).2]; exact h'.2⟩
+  mkSized := fun s n L M _ => ⟨(Vec.mkSized_spec zero n L).1, by
+    show (Vec.mkSized zero n L).1.view = _
+    rw [(Vec.mkSized_spec zero n L).2]; simp [stdSpec]⟩
+  mkVariadic := fun s vs L M _ => ⟨(Vec.mkVariadic_spec zero vs L).1, (Vec.mkVariadic_spec zero vs L).2⟩
+  mkCopy := fun d s x y L M _ h => ⟨(Vec.mkCopy_spec zero x L h.1).1, by
+    show (Vec.mkCopy zero x L).1.view = _
+    rw [(Vec.mkCopy_spec zero x L h.1).2]; exact h.2⟩
+  assign := fun d s x y x' y' L M _ h h' => ⟨(Vec.assign_spec zero x x' L h.1 h'.1).1, by
+    show (Vec.assign zero x x' L).1.view = _
+    rw [(Vec.assign_spec zero x x' L h.1 h'.1).2]; exact h'.2⟩
   assignSelf := fun d x y L M _ h => by
-    show RVec (Vec.assignSelf x L).1 y
-    rw [Vec.assignSelf_eq x L h.1]; exact h
-  push := fun s a x y L M _ h => ⟨(Vec.push_spec x a L h.1).1, by
-    show (Vec.push x a L).1.view = _
-    rw [(Vec.push_spec x a L h.1).2, h.2]; simp [stdSpec]⟩
-  pushAt := fun s i x y L M hok _ _ => by simp [vecOk] at hok
-  resize := fun s n x y L M hok h => by
-    simp only [vecOk] at hok
-    have hn : n ≤ x.size := by rw [h.size_eq]; exact hok
-    refine ⟨Vec.resize_inv x n L h.1, ?_⟩
-    show (Vec.resize x n L).1.view = _
-    rw [Vec.resize_shrink_view x n L h.1 hn, h.2]
-    simp [stdSpec, listResize, hok, List.map_take]
+    show RVec (Vec.assignSelf zero x L).1 y
+    rw [Vec.assignSelf_eq zero x L h.1]; exact h
+  push := fun s a x y L M _ h => ⟨(Vec.pushCell_spec zero x (some a) L h.1).1, by
+    show (Vec.pushCell zero x (some a) L).1.view = _
+    rw [(Vec.pushCell_spec zero x (some a) L h.1).2, h.2]; simp [stdSpec]⟩
+  pushAt := fun s i x y L M _ h hi => by
+    have hi' : i < y.length := hi
+    have hc := h.cell i hi'
+    show RVec (Vec.pushAt zero x i L).1 ((stdSpec zero).pushAt y i M).1
+    simp only [Vec.pushAt, hc, stdSpec, List.getElem?_eq_getElem hi']
+    refine ⟨(Vec.pushCell_spec zero x _ L h.1).1, ?_⟩
+    rw [(Vec.pushCell_spec zero x _ L h.1).2, h.2]; simp
+  resize := fun s n x y L M _ h => by
+    have hs := h.size_eq
+    refine ⟨Vec.resize_inv zero x n L h.1, ?_⟩
+    show (Vec.resize zero x n L).1.view = _
+    rw [Vec.resize_view zero x n L h.1, h.2, hs]
+    simp only [stdSpec, listResize]
+    split
+    · simp [List.map_take]
+    · simp
   write := fun s i a x y L M _ h hi => by
     have hi' : i < x.size := by rw [h.size_eq]; exact hi
     refine ⟨(Vec.write_spec x i a L h.1 hi').1, ?_⟩
